@@ -315,14 +315,14 @@ def _check(pid, P, tier, seed, bdir, ev):
         if kani.get('error'):
             undecided.append('kani layer: ' + kani['error'])
     # sampled validation of assumed contracts on the REAL ciphersuite crates (labelled as such, never counted as proved)
-    if P.get('rt_always'):
+    if P.get('rt_always') or (tier == 'thorough' and not os.environ.get('VERIF_NO_RT')):
         import rtcheck
-        res = rtcheck.search(pid, 'assumption validation', seed, budget_s=P.get('rt_budget', 10)) if rtcheck.available() else None
+        res = rtcheck.search(pid, 'assumption validation', seed, budget_s=(P.get('rt_budget_thorough', 90) if tier == 'thorough' else P.get('rt_budget', 10))) if rtcheck.available() else None
         if res is None:
             undecided.append('concrete validation runner (rt/) unavailable')
         else:
             m = re.search(r'RT-OK property=\S+ cases=(\d+)', res.get('stdout_tail', ''))
-            cov['concrete_validation'] = dict(what=P.get('rt_what', ''), cmd=res.get('cmd'), found=res.get('found'), cases=int(m.group(1)) if m else None,
+            cov['concrete_validation'] = dict(what=P.get('rt_what', 'scenarios of rt/README.md for this property: real crates, all six suites, oracles from the property statement'), cmd=res.get('cmd'), found=res.get('found'), cases=int(m.group(1)) if m else None,
                                               label='sampled (not a proof)', tail=res.get('stdout_tail', '')[-400:])
             cmds.append(res.get('cmd', ''))
             if res.get('found'):
@@ -334,6 +334,8 @@ def _check(pid, P, tier, seed, bdir, ev):
                 f.fn_key = None
                 f.kani = dict(counterexample=res['case'])
                 failures_all.append(f)
+            elif 'no-scenarios-for-this-property' in (res.get('stdout_tail') or '') and not P.get('rt_always'):
+                cov['concrete_validation']['label'] = 'no concrete scenarios exist for this property (nothing explored)'
             elif res.get('error') or res.get('rc') != 0:
                 undecided.append('concrete validation: %s' % (res.get('error') or ('runner exit %s' % res.get('rc'))))
             else:
